@@ -458,6 +458,21 @@ def run(ctx):
                         viol("stack|interleaved-pairing", "stack of trajectories over %s and %s: atoms %s, columns follow %s" % (ienc(it), ienc(other), names, want), dict(rp, other=ienc(other)))
         except Exception as e:  # noqa: BLE001
             viol("%s|raises|%s" % (kind, type(e).__name__), "%s on %s raised %s: %s" % (kind, ienc(it), type(e).__name__, str(e)[:200]), rp)
+    # serial numbers beyond the five columns of a PDB file: the bonds written as CONECT records still join the same atoms after loading
+    tb_ = md.Topology(); cb_ = tb_.add_chain(); rb_ = tb_.add_residue("LIG", cb_, 1)
+    ab_ = [tb_.add_atom("C%d" % i_, md.element.carbon, rb_, serial=sr_) for i_, sr_ in enumerate([99999, 100000, 100001, 1, 250000])]
+    for i_, j_ in ((2, 3), (0, 1), (3, 4)):
+        tb_.add_bond(ab_[i_], ab_[j_])
+    pb_ = os.path.join(ctx.scratch, "bigserial.pdb")
+    ctx.case(None, ("pdb-big-serials",)); ctx.count("calls:pdb with serials beyond five columns")
+    try:
+        md.Trajectory(np.arange(15, dtype=np.float32).reshape(1, 5, 3) / 10, tb_).save(pb_)
+        lb_ = md.load(pb_, standard_names=False)
+        gb_ = sorted((min(b[0].index, b[1].index), max(b[0].index, b[1].index)) for b in lb_.topology.bonds)
+        if gb_ != [(0, 1), (2, 3), (3, 4)] or lb_.n_atoms != 5:
+            viol("pdb|serials-beyond-columns", "a single chain with unique serials [99999, 100000, 100001, 1, 250000] and bonds (0,1) (2,3) (3,4) reloads from .pdb with bonds %s" % gb_, dict())
+    except Exception as e:  # noqa: BLE001
+        viol("pdb|serials-beyond-columns", "saving / loading a .pdb with serials beyond 99999 raised %s: %s" % (type(e).__name__, str(e)[:100]), dict())
     # subsets given in any order, with repeats and values counted from the end: the atoms follow the list as numpy indexing would
     # (model: isubsetL, driver `itopsubsetl`; theorem c04_isubsetL_sorted makes the ordered subset its special case)
     lreqs, lmeta = [], []
